@@ -173,8 +173,47 @@ class ParserModel(object):
                 if carried or slot:
                     if best is None or len(ins.cases) > len(best.cases):
                         best = ins
+        # loop-carried variables gathered in a local record ("struct parser p" handed to per-state functions): every
+        # scalar member is a slot, named after the member
+        self.field_slots = {}          # address value -> member name
+        self.state_field = None
+        mod = fn.module
+        for ins in fn.blocks[fn.order[0]].instrs:
+            if ins.op != 'alloca' or not (ins.srcty or '').strip().startswith('%struct.'):
+                continue
+            sty = ins.srcty.strip()
+            if sty in ('%struct.cfg_opt_t', '%struct.cfg_t', '%struct.stat'):
+                continue
+            ftys = mod.structs.get(sty)
+            names = mod.struct_fields.get(sty)
+            if not ftys or not names:
+                continue
+            for ty, nm in zip(ftys, names):
+                ty = ty.strip()
+                if ty.endswith('*') or ty in ('i32', 'i64', 'i8', 'i16'):
+                    self.field_slots[('fld', ('alloca', ins.res), sty[1:].split('.', 1)[1], nm)] = nm
         if best is None or len(best.cases) < 5:
-            raise Broken('cfg_parse_internal: no switch over a loop-carried state variable')
+            # the dispatch may sit in a helper and read the state through a pointer to that record
+            cand = None
+            for g in ctx.deep_funcs(fn):
+                for ins in g.instrs():
+                    if ins.op != 'switch' or ins.ops[0].kind != 'reg' or len(ins.cases) < 5:
+                        continue
+                    d = g.defs.get(ins.ops[0].name)
+                    if d is None or d.op != 'load' or d.ops[0].kind != 'reg':
+                        continue
+                    gp = g.defs.get(d.ops[0].name)
+                    if gp is None or gp.op != 'getelementptr' or len(gp.ops) < 3 or gp.ops[2].kind != 'int':
+                        continue
+                    sty = (gp.srcty or '').strip()
+                    fld = g.module.field_name(sty, gp.ops[2].ival)
+                    hits = [a for a, nm in self.field_slots.items() if nm == fld and a[2] == sty[1:].split('.', 1)[1]]
+                    if hits and (cand is None or len(ins.cases) > len(cand[0].cases)):
+                        cand = (ins, hits[0])
+            if cand is None:
+                raise Broken('cfg_parse_internal: no switch over a loop-carried state variable')
+            best, self.state_field = cand
+            self.field_slots[self.state_field] = 'state'
         self.state_switch = best
         for nm, ph in list(self.phis.items()):
             if ph.res == best.ops[0].name:
@@ -184,7 +223,7 @@ class ParserModel(object):
                     del self.phis[nm]
                     self.phis['state'] = ph
                     fn.var_names[ph.res] = 'state'
-        if self.state_phi is None:
+        if self.state_phi is None and self.state_field is None:
             d = fn.defs.get(best.ops[0].name)
             self.state_slot = d.ops[0].name
             self.slot_vars[self.state_slot] = 'state'
@@ -193,6 +232,60 @@ class ParserModel(object):
         self.mod_sets = ctx.mod_sets
         self.ex = sym.Explorer(ctx.modules, inline=callback_wrappers(ctx), max_visits=2, max_paths=20000, mod_sets=self.mod_sets)
         self._table = {}
+
+    def _finish_loop(self, paths):
+        """A path that comes back to the loop head with the loop variable set to "stop" (rc = STATE_ERROR ...) does not
+        start another iteration: follow it out of the loop to the return and present it as one returning path."""
+        seeds = self._loop_condition_seeds()
+        if not seeds:
+            return paths
+        import copy
+        fn = self.fn
+        out = []
+        for p in paths:
+            leaving = p.end == 'stop' and any(sym.is_const(p.next.get(reg, ('p', '?'))) and p.next.get(reg) != val for reg, val in seeds.items())
+            if not leaving:
+                out.append(p)
+                continue
+            env2 = {}
+            for prm in fn.params:
+                env2[prm.name] = ('p', fn.param_names.get(prm.name, prm.name))
+            for ph in fn.blocks[self.header].phis():
+                env2[ph.res] = p.next.get(ph.res, ('p', fn.var_names.get(ph.res, ph.res)))
+            tails = self.ex.explore(fn, start=self.header, env=env2, mem=dict(p.mem), neq={('p', 'cfg'): {0}})
+            shift = len(p.assume)
+            for q in tails:
+                if q.end == 'cut':
+                    continue
+                evs = list(p.events)
+                for e in q.events:
+                    e2 = copy.copy(e)
+                    e2.seq = e.seq + shift
+                    evs.append(e2)
+                q.events = evs
+                q.assume = list(p.assume) + list(q.assume)
+                out.append(q)
+        return out
+
+    def _loop_condition_seeds(self):
+        """{phi register: constant} for loop-carried variables whose only role at the loop head is 'go on while x == K'"""
+        if getattr(self, '_lcs', None) is not None:
+            return self._lcs
+        out = {}
+        fn = self.fn
+        blk = fn.blocks[self.header]
+        t = blk.instrs[-1]
+        if t.op == 'br' and len(t.targets) == 2 and t.ops and t.ops[0].kind == 'reg':
+            inside = [x in self.loop_body for x in t.targets]
+            cnd = fn.defs.get(t.ops[0].name)
+            if cnd is not None and cnd.op == 'icmp' and inside[0] != inside[1] and cnd.ops[0].kind == 'reg' and cnd.ops[1].kind == 'int':
+                ph = fn.defs.get(cnd.ops[0].name)
+                if ph is not None and ph.op == 'phi' and ph.block is blk and ph is not self.state_phi and ph is not self.tok_phi:
+                    stay_when_true = inside[0]
+                    if (cnd.pred == 'eq') == stay_when_true:
+                        out[ph.res] = ('c', cnd.ops[1].ival)
+        self._lcs = out
+        return out
 
     def state_constants(self):
         """every constant that can flow into the state variable (assignments in the loop,
@@ -240,6 +333,32 @@ class ParserModel(object):
                 unknown.append((fn.name, d.line))
         if self.state_phi is not None:
             walk(sym_value(self.state_phi.res))
+            return out, unknown
+        if self.state_field is not None:
+            # state kept in a member of a local record: every store to that member of that record type, here or in a helper
+            sname, fld = self.state_field[2], self.state_field[3]
+            real = next((k for k, v in self.field_slots.items() if v == 'state'), self.state_field)
+            for g in self.ctx.deep_funcs(fn):
+                for ins in g.instrs():
+                    if ins.op != 'store' or ins.ops[1].kind != 'reg':
+                        continue
+                    gp = g.defs.get(ins.ops[1].name)
+                    if gp is None or gp.op != 'getelementptr' or len(gp.ops) < 3 or gp.ops[2].kind != 'int':
+                        continue
+                    if (gp.srcty or '').strip() != '%struct.' + sname or g.module.field_name(gp.srcty.strip(), gp.ops[2].ival) != real[3]:
+                        continue
+                    v = ins.ops[0]
+                    if g is fn:
+                        walk(v)
+                    elif v.kind == 'int':
+                        out.add(v.ival)
+                    else:
+                        d = g.defs.get(v.name) if v.kind == 'reg' else None
+                        if d is not None and d.op in ('phi', 'select') and all(x.kind == 'int' for x in (d.ops if d.op == 'phi' else d.ops[1:])):
+                            for x in (d.ops if d.op == 'phi' else d.ops[1:]):
+                                out.add(x.ival)
+                        else:
+                            unknown.append((g.name, getattr(d, 'line', None)))
             return out, unknown
         # state kept in a stack slot: every value stored into it, here or (through the pointer) in a helper
         def stores_into(g, reg, depth=0):
@@ -289,6 +408,9 @@ class ParserModel(object):
             env[self.state_phi.res] = ('c', state)
         if self.tok_phi is not None:
             env[self.tok_phi.res] = ('c', tok)
+        # "while (rc == CONTINUE)": an iteration that happens starts with the loop condition true
+        for reg_, val_ in self._loop_condition_seeds().items():
+            env[reg_] = val_
         # locals whose address is taken (handed to a helper by reference) live in memory instead of in a
         # loop-carried SSA value: seed the slot with the same symbol, read the final content back below
         mem = {}
@@ -296,9 +418,14 @@ class ParserModel(object):
             mem[('alloca', reg)] = ('c', seeds[nm]) if seeds and nm in seeds else ('p', nm)
         if self.state_slot is not None:
             mem[('alloca', self.state_slot)] = ('c', state)
+        for addr, nm in self.field_slots.items():
+            mem[addr] = ('c', seeds[nm]) if seeds and nm in seeds else ('p', nm)
+        if self.state_field is not None:
+            mem[self.state_field] = ('c', state)
         paths = self.ex.explore(fn, start=self.header, env=env, stop=[self.header],
                                 call_results={'cfg_yylex': [('c', tok)]},
                                 neq={('p', 'cfg'): {0}}, mem=mem)
+        paths = self._finish_loop(paths)
         out = []
         for p in paths:
             if p.end == 'cut':
@@ -307,6 +434,9 @@ class ParserModel(object):
                 for reg, nm in self.slot_vars.items():
                     if nm not in p.next:
                         p.next[nm] = p.mem.get(('alloca', reg), ('p', nm))
+                for addr, nm in self.field_slots.items():
+                    if nm not in p.next:
+                        p.next[nm] = p.mem.get(addr, ('p', nm))
             tr = Transition(state, tok, p, self)
             out.append(tr)
         if not out:
